@@ -154,6 +154,8 @@ structure DS where
   variants : List (String × Nat) := []
   boundaries : List (String × Nat) := []
   tkinds : List (String × Nat) := []
+  reallocs : List (String × Nat) := []     -- passes inside which Circuit::m_nodes was reallocated
+  flags : List (String × Nat) := []
 
 def compact (s : State) : State :=
   let g := tabulate s
@@ -305,10 +307,12 @@ partial def loop (h : IO.FS.Stream) (d : DS) : IO DS := do
   | "case" :: k :: mode :: rest =>
     let v := rest.headD ""
     loop h { d with mode := mode, caseId := k, variant := v, cases := d.cases + 1, sm := State.init, pending := none, lastOp := "", lastAt := "", stepNo := 0,
-                    variants := if mode == "design" then bump d.variants v else d.variants }
+                    variants := if mode == "design" then bump d.variants v else d.variants,
+                    flags := (rest.drop 1).foldl bump d.flags }
   | ["end"] => loop h d
   | "D" :: n :: _ => loop h { d with inDump := true, g := { size := pNat n }, raw := #[ln], kinds := #[] }
   | "at" :: w :: _ => loop h { d with lastAt := w, stepNo := d.stepNo + 1, boundaries := bump d.boundaries w }
+  | "rl" :: w :: _ => loop h { d with reallocs := bump d.reallocs w }
   | "post" :: w :: _ => loop h { d with res := bump d.res ("post-" ++ w) }
   | "build" :: w :: _ => loop h { d with res := bump d.res ("build-" ++ w) }
   | "op" :: rest =>
@@ -344,4 +348,4 @@ def main : IO Unit := do
   let d ← loop (← IO.getStdin) {}
   IO.println (s!"SUMMARY \{\"cases\":{d.cases},\"ops\":{d.ops},\"dumps\":{d.dumps},\"diffs\":{d.diffs},\"propfails\":{d.propfails}," ++
     s!"\"max_nodes\":{d.maxNodes},\"type_checked_nodes\":{d.typeChecked},\"hist\":{jsonHist d.hist},\"outcomes\":{jsonHist d.res}," ++
-    s!"\"variants\":{jsonHist d.variants},\"boundaries\":{jsonHist d.boundaries},\"kinds\":{jsonHist d.tkinds}}")
+    s!"\"variants\":{jsonHist d.variants},\"design_flags\":{jsonHist d.flags},\"realloc_inside_pass\":{jsonHist d.reallocs},\"boundaries\":{jsonHist d.boundaries},\"kinds\":{jsonHist d.tkinds}}")
